@@ -2958,7 +2958,7 @@ let cms_miniaod_coder =
     ('i'::('E'::('v'::('e'::('n'::('t'::('.'::('g'::('e'::('t'::('B'::('y'::('T'::('o'::('k'::('e'::('n'::('('::[]))))))))))))))))))) :: ((PHole
     HTok) :: ((PLit
     (','::(' '::('r'::('e'::('s'::('u'::('l'::('t'::(')'::(';'::[]))))))))))) :: []))) :: []));
-    cd_alloc = TokPerClass; cd_init = (Some ((PLit
+    cd_alloc = TokPerCall; cd_init = (Some ((PLit
     ('c'::('o'::('n'::('s'::('u'::('m'::('e'::('s'::('<'::[])))))))))) :: ((PHole
     HType) :: ((PLit
     ('>'::('('::('e'::('d'::('m'::(':'::(':'::('I'::('n'::('p'::('u'::('t'::('T'::('a'::('g'::('('::('c'::('o'::('l'::('l'::('e'::('c'::('t'::('i'::('o'::('n'::('_'::('n'::('a'::('m'::('e'::(')'::(')'::[])))))))))))))))))))))))))))))))))) :: [])))) }
@@ -3000,7 +3000,7 @@ let md_kinds =
     ('e'::('d'::('m'::(':'::(':'::('H'::('a'::('n'::('d'::('l'::('e'::('<'::[]))))))))))))) :: ((PHole
     HType) :: ((PLit ('>'::[])) :: []))); cc_token = None; cc_pd_type = (S
     O); cc_pd_elem = O }; mk_single = None; mk_libs = false; mk_elem_ptr =
-    false } :: ({ mk_type =
+    true } :: ({ mk_type =
     ('a'::('d'::('d'::('_'::('c'::('m'::('s'::('_'::('m'::('i'::('n'::('i'::('a'::('o'::('d'::('_'::('e'::('v'::('e'::('n'::('t'::('_'::('c'::('o'::('l'::('l'::('e'::('c'::('t'::('i'::('o'::('n'::('_'::('i'::('n'::('f'::('o'::[])))))))))))))))))))))))))))))))))))));
     mk_keys =
     (('m'::('e'::('t'::('a'::('d'::('a'::('t'::('a'::('_'::('t'::('y'::('p'::('e'::[]))))))))))))) :: (('n'::('a'::('m'::('e'::[])))) :: (('i'::('n'::('c'::('l'::('u'::('d'::('e'::('_'::('f'::('i'::('l'::('e'::('s'::[]))))))))))))) :: (('c'::('o'::('n'::('t'::('a'::('i'::('n'::('e'::('r'::('_'::('t'::('y'::('p'::('e'::[])))))))))))))) :: (('e'::('l'::('e'::('m'::('e'::('n'::('t'::('_'::('t'::('y'::('p'::('e'::[])))))))))))) :: (('c'::('o'::('n'::('t'::('a'::('i'::('n'::('s'::('_'::('c'::('o'::('l'::('l'::('e'::('c'::('t'::('i'::('o'::('n'::[]))))))))))))))))))) :: (('e'::('l'::('e'::('m'::('e'::('n'::('t'::('_'::('p'::('o'::('i'::('n'::('t'::('e'::('r'::[]))))))))))))))) :: [])))))));
@@ -3013,7 +3013,7 @@ let md_kinds =
     HType) :: ((PLit ('>'::[])) :: []))); cc_token = (Some ((PLit
     ('e'::('d'::('m'::(':'::(':'::('E'::('D'::('G'::('e'::('t'::('T'::('o'::('k'::('e'::('n'::('T'::('<'::[])))))))))))))))))) :: ((PHole
     HType) :: ((PLit ('>'::[])) :: [])))); cc_pd_type = (S O); cc_pd_elem =
-    O }; mk_single = None; mk_libs = false; mk_elem_ptr = false } :: []))
+    O }; mk_single = None; mk_libs = false; mk_elem_ptr = true } :: []))
 
 (** val default_types :
     (char list * (((char list * char list) * char list) * nat) list) list **)
